@@ -10,6 +10,14 @@
    mfeature <k> <mode> <n> <idx..> | mfeature1 <k> <mode> <idx>
    mode = incl | excl | default.   Model answer ## specification answer. *)
 let behaviour_used =
+  match OSys.getenv_opt "RETR_FLAGS" with
+  | Some fl ->
+    (* individual switches on top of code_today, e.g. RETR_FLAGS=pad_end_is_last,mt_point_sets_data_offset *)
+    let has s = OLst.mem s (OStr.split_on_char ',' fl) in
+    { pad_end_is_last = has "pad_end_is_last"; mt_point_sets_data_offset = has "mt_point_sets_data_offset";
+      mt_invalid_range_throws = has "mt_invalid_range_throws"; mt_point_by_extent = has "mt_point_by_extent";
+      mt_empty_guard = has "mt_empty_guard"; pad_index_range = has "pad_index_range" }
+  | None ->
   match OSys.getenv_opt "RETR_MODEL" with
   | Some "today" -> code_today
   | Some "repaired" -> repaired_except_pinned
